@@ -23,11 +23,12 @@
      - C01_multiplexed_assembly: over whole clean runs, any interleaving: every stream in the table holds exactly what
        replaying its own frames gives (C01_assembled_body / C01_assembled_request read that as body and request).
    The trace-level statement for one request (C01_request_integrity_statement: "exactly one ODispatch sid rq appears")
-   is stated and not proved here: see below. *)
+   is proved for every coder whose decoder consumes input with every field it decodes (C01_request_integrity_progress)
+   and, with no hypothesis left, for the real HPACK coder (C01_request_integrity_hpack): see below. *)
 From H2V Require Import Base.Bytes Base.MachineInt Base.Result Gen.GenConsts Impl.Hpack Impl.ServerConn Impl.ServerInst
   Proofs.SrvBase Proofs.SrvIsoRef Proofs.SrvIsoMoves Proofs.SrvIsoSteps Proofs.SrvIsoHdr Proofs.SrvIsoHdrStep
   Proofs.SrvIsoRun Proofs.SrvIsoErr Proofs.SrvIsoReq Proofs.SrvFlowSend Proofs.SrvIsoResp Proofs.SrvIsoNI Proofs.SrvIsoOwn
-  Proofs.SrvIsoLog Proofs.SrvIsoExamples.
+  Proofs.SrvIsoLog Proofs.SrvIsoExamples Proofs.SrvIsoInst Proofs.SrvMsgDefs Proofs.SrvMsgExamples Proofs.SrvReqTrace Proofs.SrvReqTraceEx.
 From Coq Require Import ZArith.
 Local Open Scope N_scope.
 
@@ -162,13 +163,10 @@ Theorem C01_assembled_request : forall cfg frs ds hF,
 Proof. exact asm_request. Qed.
 Print Assumptions C01_assembled_request.
 
-(* The whole-run statement for one request, NOT proved here (the per-step theorems above and in Props/C09.v are its
-   ingredients; what is missing is the induction over the frames of the request that carries "the table entry of
-   sid is hfold over the fields decoded so far, its body the DATA payloads so far" through C09_hpack_fragment,
-   C01_data_appended and C01_other_streams_untouched. The message-validation agent proves exactly this for the
-   lock-step schedule from any `ready` state - Props/C20.v C20_server_accepts / _refuses / _iff / _over_limits (Proofs/SrvMsgC20.v, core `request_run` in
-   Proofs/SrvMsgReq.v; `ready_init` for init_conn) - with trailers and
-   with the negative half: a malformed / oversized request is never dispatched).
+(* The whole-run statement for one request. Proved below (Proofs/SrvReqTrace*.v) from the lock-step run of a request from any
+   `ready` state (Props/C20.v, core `request_run` in Proofs/SrvMsgReq.v), the invariants of clean runs (Proofs/SrvIsoRun.v
+   run_inv; Proofs/SrvReqTraceI.v: no idle stream in the table, the ring cursor below its capacity) and "exactly once"
+   = the dispatch, preceded by window updates only.
    frames_of_request: HEADERS CONTINUATION* (any split hfrags of the block), DATA* (any chunking), END_STREAM on the
    last frame; the fragments decode (by the reference, from the decoder state at that moment) to fs; the model
    accepts fs (hfold, validate) and the body is within the limit and agrees with content-length. *)
@@ -210,6 +208,95 @@ Definition C01_request_integrity_statement : Prop :=
       trace (run dec_field enc_field enc_set_max cfg h0 (evs0 ++ evs)) =
       trace c0 ++ pre ++ ODispatch sid (rq_append_body (request_of empty_req fs) (concat chunks)) :: post /\
       (forall rq, ~ In (ODispatch sid rq) (pre ++ post)).
+
+(* The statement as written is generic in the HPACK coder with NO hypothesis on dec_field. The proof goes through the
+   lock-step development (Proofs/SrvMsg*.v), whose decoding relation asks that every decoded field consumes input (this is
+   what makes the fuel `length b + 1` of handleHeaderFrame's loop sufficient). For a decoder that returns a field without
+   consuming anything the model may still accept the block within its fuel, so the statement above is believed true as
+   written, but that case is not covered: C01_request_integrity_statement stays a Definition, and what is proved is
+   (1) the same statement under the extra hypothesis `progress` on the abstract decoder (clearly an assumption on the
+       coder, not on the run), and
+   (2) the statement itself, word for word, at the real HPACK decoder srv_dec_field (progress: Proofs/SrvIsoInst.v
+       srv_dec_shrinks, from C03's next_field_progress), for any encoder. *)
+Definition C01_request_integrity_progress_statement : Prop :=
+  forall hstate (dec_field : hstate -> N -> bytes -> dec_res hstate) enc_field enc_set_max cfg h0,
+    (* EXTRA HYPOTHESIS: a decoded field consumes at least one octet of its input *)
+    (forall d n b k v rest d1, dec_field d n b = DField hstate k v rest d1 -> (length rest < length b)%nat) ->
+    forall evs0 sid hfrags chunks fs n1 hF,
+    let c0 := run dec_field enc_field enc_set_max cfg h0 evs0 in
+    let evs := flat_map (fun f => [EvRL (RFrame f); EvSL]) (req_frames sid hfrags chunks) in
+    clean dec_field enc_field enc_set_max cfg h0 (evs0 ++ evs) ->
+    N.land sid 1 = 1 -> sc_highestID c0 < sid -> (sc_open c0 < cf_maxStreams cfg)%Z -> sc_closing c0 = false ->
+    sc_sl_done c0 = false -> sc_rl_done c0 = false -> sc_wl_dead c0 = false -> sc_readerQ c0 = [] -> sc_expectCont c0 = 0 ->
+    ref_frames_fs dec_field (sc_dec c0, 0, []) (filter is_hdr_frame (req_frames sid hfrags chunks)) fs
+                  (sc_dec (run dec_field enc_field enc_set_max cfg h0 (evs0 ++ evs)), n1, []) ->
+    hfold cfg (hh1 (new_stream sid (sc_initWin c0)) (mkSFrame KHeaders 0 sid 0 [] 0 0 0 false 0 false 0)) fs = Some hF ->
+    hd_pMethod hF = true -> hd_pScheme hF = true -> hd_pPath hF = true -> hd_path hF <> [] ->
+    ((0 <? cf_maxBody cfg) && (cf_maxBody cfg <? Z.of_N (len (concat chunks))))%Z = false ->
+    (hd_hasCL hF = true -> hd_contentLength hF = Z.of_N (len (concat chunks))) ->
+    exists pre post,
+      trace (run dec_field enc_field enc_set_max cfg h0 (evs0 ++ evs)) =
+      trace c0 ++ pre ++ ODispatch sid (rq_append_body (request_of empty_req fs) (concat chunks)) :: post /\
+      (forall rq, ~ In (ODispatch sid rq) (pre ++ post)).
+
+Theorem C01_request_integrity_progress : C01_request_integrity_progress_statement.
+Proof. exact request_integrity_core. Qed.
+Print Assumptions C01_request_integrity_progress.
+
+(* C01_request_integrity_statement at the real HPACK decoder (hstate := hpack_state, dec_field := srv_dec_field), any encoder *)
+Theorem C01_request_integrity_hpack :
+  forall enc_field enc_set_max cfg h0 evs0 sid hfrags chunks fs n1 hF,
+    let c0 := run srv_dec_field enc_field enc_set_max cfg h0 evs0 in
+    let evs := flat_map (fun f => [EvRL (RFrame f); EvSL]) (req_frames sid hfrags chunks) in
+    clean srv_dec_field enc_field enc_set_max cfg h0 (evs0 ++ evs) ->
+    N.land sid 1 = 1 -> sc_highestID c0 < sid -> (sc_open c0 < cf_maxStreams cfg)%Z -> sc_closing c0 = false ->
+    sc_sl_done c0 = false -> sc_rl_done c0 = false -> sc_wl_dead c0 = false -> sc_readerQ c0 = [] -> sc_expectCont c0 = 0 ->
+    ref_frames_fs srv_dec_field (sc_dec c0, 0, []) (filter is_hdr_frame (req_frames sid hfrags chunks)) fs
+                  (sc_dec (run srv_dec_field enc_field enc_set_max cfg h0 (evs0 ++ evs)), n1, []) ->
+    hfold cfg (hh1 (new_stream sid (sc_initWin c0)) (mkSFrame KHeaders 0 sid 0 [] 0 0 0 false 0 false 0)) fs = Some hF ->
+    hd_pMethod hF = true -> hd_pScheme hF = true -> hd_pPath hF = true -> hd_path hF <> [] ->
+    ((0 <? cf_maxBody cfg) && (cf_maxBody cfg <? Z.of_N (len (concat chunks))))%Z = false ->
+    (hd_hasCL hF = true -> hd_contentLength hF = Z.of_N (len (concat chunks))) ->
+    exists pre post,
+      trace (run srv_dec_field enc_field enc_set_max cfg h0 (evs0 ++ evs)) =
+      trace c0 ++ pre ++ ODispatch sid (rq_append_body (request_of empty_req fs) (concat chunks)) :: post /\
+      (forall rq, ~ In (ODispatch sid rq) (pre ++ post)).
+Proof. exact request_integrity_hpack. Qed.
+Print Assumptions C01_request_integrity_hpack.
+
+(* The hypotheses are satisfiable, on the real HPACK instance (Proofs/SrvReqTraceEx.v): stream 1 has been dispatched and its
+   handler still runs (the stream is in the table); a POST arrives on stream 3, its block cut into three fragments inside
+   fields, its body in two DATA frames. The run is clean, the state is ready, the block decodes to fs1 and is accepted; the
+   trace gains the window update for the first DATA frame and THE dispatch, with the request the peer sent. *)
+Example C01_example_request_integrity :
+  clean srv_dec_field srv_enc_field set_max_table_size cfgE srv_init_hpack (x_evs0 ++ x_evs) /\
+  (map (fun s => (st_id s, st_state s, st_handlerRunning s))
+       (sc_strms (run srv_dec_field srv_enc_field set_max_table_size cfgE srv_init_hpack x_evs0)) = [(1, SHalfClosed, true)] /\
+   N.land 3 1 = 1 /\ sc_highestID (run srv_dec_field srv_enc_field set_max_table_size cfgE srv_init_hpack x_evs0) < 3 /\
+   (sc_open (run srv_dec_field srv_enc_field set_max_table_size cfgE srv_init_hpack x_evs0) < cf_maxStreams cfgE)%Z /\
+   sc_closing (run srv_dec_field srv_enc_field set_max_table_size cfgE srv_init_hpack x_evs0) = false /\
+   sc_sl_done (run srv_dec_field srv_enc_field set_max_table_size cfgE srv_init_hpack x_evs0) = false /\
+   sc_rl_done (run srv_dec_field srv_enc_field set_max_table_size cfgE srv_init_hpack x_evs0) = false /\
+   sc_wl_dead (run srv_dec_field srv_enc_field set_max_table_size cfgE srv_init_hpack x_evs0) = false /\
+   sc_readerQ (run srv_dec_field srv_enc_field set_max_table_size cfgE srv_init_hpack x_evs0) = [] /\
+   sc_expectCont (run srv_dec_field srv_enc_field set_max_table_size cfgE srv_init_hpack x_evs0) = 0) /\
+  x_evs = flat_map (fun f => [EvRL (RFrame f); EvSL]) (req_frames 3 x_hfrags x_chunks) /\
+  length x_hfrags = 3%nat /\ length x_chunks = 2%nat /\
+  ref_frames_fs srv_dec_field (sc_dec (run srv_dec_field srv_enc_field set_max_table_size cfgE srv_init_hpack x_evs0), 0, [])
+                (filter is_hdr_frame (req_frames 3 x_hfrags x_chunks)) fs1
+                (sc_dec (run srv_dec_field srv_enc_field set_max_table_size cfgE srv_init_hpack (x_evs0 ++ x_evs)), 7, []) /\
+  (exists hF,
+     hfold cfgE (hh1 (new_stream 3 (sc_initWin (run srv_dec_field srv_enc_field set_max_table_size cfgE srv_init_hpack x_evs0)))
+                     (mkSFrame KHeaders 0 3 0 [] 0 0 0 false 0 false 0)) fs1 = Some hF /\
+     hd_pMethod hF = true /\ hd_pScheme hF = true /\ hd_pPath hF = true /\ hd_path hF <> [] /\
+     (hd_hasCL hF = true -> hd_contentLength hF = Z.of_N (len (concat x_chunks)))) /\
+  ((0 <? cf_maxBody cfgE) && (cf_maxBody cfgE <? Z.of_N (len (concat x_chunks))))%Z = false /\
+  trace (run srv_dec_field srv_enc_field set_max_table_size cfgE srv_init_hpack (x_evs0 ++ x_evs)) =
+  trace (run srv_dec_field srv_enc_field set_max_table_size cfgE srv_init_hpack x_evs0) ++
+  [OWinUpd 3 2] ++ ODispatch 3 (rq_append_body (request_of empty_req fs1) (concat x_chunks)) :: [].
+Proof.
+  exact (conj x_clean (conj x_ready (conj eq_refl (conj eq_refl (conj eq_refl (conj x_decodes (conj x_accepted (conj x_body x_trace)))))))).
+Qed.
 
 (* ================= examples (real HPACK instance; by computation) ================= *)
 (* Three requests multiplexed on one connection: stream 1 - POST, its block cut in three (inside a literal), HEADERS
